@@ -575,3 +575,16 @@ MUTANTS += [
     dict(prop="C20", name="pileup-extends-input-stops", file=IV,
          old="    rla = RunLength2dArray.from_intervals(intervals.start, intervals.stop, chromosome_size)", new="    np.minimum(intervals.stop, chromosome_size - 1, out=intervals.stop)\n    rla = RunLength2dArray.from_intervals(intervals.start, intervals.stop, chromosome_size)"),
 ]
+
+# BAM programs in C04 / C05 (pbt/bamprog.py)
+_BAM_STALE = dict(file=BAM, old="        for name in ('_read_name_start', '_cigar_start', '_sequence_start', '_quality_start'):\n            self.__dict__.pop(name, None)\n",
+                  new="        for name in ('_read_name_start',):\n            self.__dict__.pop(name, None)\n")
+MUTANTS += [
+    dict(prop="C04", name="bam-stale-offsets-after-write (original defect 0912e0d)", **_BAM_STALE),
+    dict(prop="C05", name="bam-stale-offsets-after-write (original defect 0912e0d)", **_BAM_STALE),
+    dict(prop="C04", name="bam-getitem-keeps-contiguous-flag", file=BAM,
+         old="        return self.__class__(self._data, self._new_lines[item], self._ends[item], self._header_data,\n                              is_contigous=False)",
+         new="        return self.__class__(self._data, self._new_lines[item], self._ends[item], self._header_data,\n                              is_contigous=isinstance(item, slice) and item.step in (None, 1))"),
+    dict(prop="C04", name="bam-make-contiguous-drops-last-byte", file=BAM,
+         old="        new_starts = np.insert(np.cumsum(lens), 0, 0)\n", new="        new_starts = np.insert(np.cumsum(lens), 0, 0)\n        new_starts[-1] -= 1 if len(lens) > 1 else 0\n"),
+]
